@@ -4,6 +4,8 @@ Property theorems only; helper lemmas live in `Lemmas/Rle*.lean`.
 -/
 import PsdVerif.Model.Rle
 import PsdVerif.Generated.Rle
+import PsdVerif.Lemmas.Rle
+import PsdVerif.Lemmas.RleDec
 
 namespace PsdVerif.C05
 open PsdVerif PsdVerif.Rle
@@ -25,5 +27,166 @@ theorem dec_rejects_valueError (d : Bytes) (size : Nat) (e : Err) :
   · split <;> simp
     intro h; exact h.symm
   · exact decLoopPy_valueError d size 0 0 [] e
+
+/-! ### Encoder output is valid PackBits for the input -/
+
+/-- Apple's decoder expands the encoder output to exactly the input (every input). -/
+theorem spec_decodes_enc (d : Bytes) : specDec (encPy d) = some d.toList := by
+  unfold encPy
+  split
+  · rename_i h
+    have : d = #[] := Array.eq_empty_of_size_eq_zero h
+    subst this; rw [specDec]
+  · split
+    · rename_i h0 h
+      have h1 := drop_eq_cons d 0 (by omega)
+      have h2 : d.toList.drop 1 = [] := List.drop_eq_nil_of_le (by simp; omega)
+      simp only [List.drop_zero, Nat.zero_add] at h1
+      rw [h1, h2, specDec_cons]
+      have hz : (0 : UInt8).toNat = 0 := rfl
+      simp [hz, specDec]
+    · have := specDec_encFrom d 0 (Nat.zero_le _)
+      simpa using this
+
+/-- The encoder output is a sequence of valid chunks (runs of 2…128 equal bytes, literals of
+1…127 bytes) whose contents concatenate to the input. -/
+theorem enc_chunks (d : Bytes) :
+    ∃ cs : List Chunk, encPy d = cs.flatMap Chunk.emit ∧ cs.flatMap Chunk.content = d.toList ∧
+      ∀ c ∈ cs, c.Valid := by
+  unfold encPy
+  split
+  · rename_i h
+    have : d = #[] := Array.eq_empty_of_size_eq_zero h
+    subst this
+    exact ⟨[], rfl, rfl, by simp⟩
+  · split
+    · rename_i h0 h
+      refine ⟨[.lit [d[0]]], by simp [Chunk.emit], ?_, ?_⟩
+      · have h1 := drop_eq_cons d 0 (by omega)
+        have h2 : d.toList.drop 1 = [] := List.drop_eq_nil_of_le (by simp; omega)
+        simp only [List.drop_zero, Nat.zero_add] at h1
+        rw [h1, h2]; simp [Chunk.content]
+      · intro c hc
+        simp at hc; subst hc
+        exact ⟨by simp, by simp⟩
+    · have := encFrom_chunks d 0 (Nat.zero_le _)
+      simpa using this
+
+/-- The reserved header 0x80 is never emitted. -/
+theorem enc_no_noop (d : Bytes) : ∀ h ∈ headers (encPy d), h ≠ 128 := by
+  unfold encPy
+  split
+  · simp [headers]
+  · split
+    · intro h hh
+      simp [headers] at hh
+      subst hh; decide
+    · exact headers_encFrom d 0 (Nat.zero_le _)
+
+/-- Apple's worst case: `n + ⌈n/127⌉` bytes. -/
+theorem enc_size_bound (d : Bytes) : (encPy d).length ≤ d.size + (d.size + 126) / 127 := by
+  unfold encPy
+  split
+  · simp
+  · split
+    · rename_i h; simp [h]
+    · have := encFrom_length d 0 (Nat.zero_le _)
+      simpa using this
+
+/-! ### Decoder accepts every conforming stream; round trip -/
+
+/-- `rle.decode` accepts every stream the specification decoder expands (no-op headers
+included) when asked for the expanded size, and returns the expansion. -/
+theorem dec_complete (e : Bytes) (row : List UInt8) (h : specDec e.toList = some row) :
+    decPy e row.length = .ok row := by
+  unfold decPy
+  split
+  · rename_i h1
+    obtain ⟨x, rfl⟩ : ∃ x, e = #[x] := by
+      match e, h1 with
+      | ⟨[x]⟩, _ => exact ⟨x, rfl⟩
+    simp only [List.getElem_toArray, List.getElem_cons_zero]
+    change specDec [x] = some row at h
+    rw [specDec_cons] at h
+    by_cases c : x = 128
+    · subst c
+      have hz : (128 : UInt8).toNat = 128 := rfl
+      simp [hz, specDec] at h
+      subst h; simp
+    · exfalso
+      have hx : x.toNat ≠ 128 := fun hc => c (by
+        apply UInt8.toNat_inj.mp; simpa using hc)
+      by_cases c1 : x.toNat < 128
+      · simp [c1] at h
+      · simp [c1, hx] at h
+  · have := decLoopPy_complete e row.length 0 0 [] row (Nat.zero_le _) (by simpa using h) rfl
+      (by simp)
+    simpa using this
+
+/-- decode ∘ encode = id, for every input (including the empty and the one-byte input). -/
+theorem dec_enc (d : Bytes) : decPy (⟨encPy d⟩ : Bytes) d.size = .ok d.toList := by
+  have h := dec_complete ⟨encPy d⟩ d.toList (spec_decodes_enc d)
+  simpa using h
+
+/-! ### Decoder: exact size or rejection -/
+
+theorem dec_exact_or_reject (e : Bytes) (n : Nat) (r : List UInt8) :
+    decPy e n = .ok r → r.length = n ∨ (e = #[128] ∧ r = []) := by
+  unfold decPy
+  split
+  · rename_i h1
+    split
+    · simp
+    · rename_i hx
+      intro hr
+      right
+      obtain ⟨x, rfl⟩ : ∃ x, e = #[x] := by
+        match e, h1 with
+        | ⟨[x]⟩, _ => exact ⟨x, rfl⟩
+      simp at hx hr
+      exact ⟨by rw [hx], hr⟩
+  · intro hr
+    left
+    exact decLoopPy_exact e n 0 0 [] r (by simp) (Nat.zero_le _) hr
+
+/-! ### The Cython decoder: memory safe, same outcome as the Python decoder -/
+
+/-- `_rle.decode` and `rle.decode` agree on every input: same bytes, or the same exception. -/
+theorem impl_agree_dec (e : Bytes) (n : Nat) : decC e n = toC (decPy e n) := by
+  unfold decC decPy
+  split
+  · split <;> rfl
+  · exact decLoopC_agree e n 0 0 (List.replicate n 0) [] (by simp) (by simp) (Nat.zero_le _)
+
+/-- `_rle.encode` is the same state machine as `rle.encode`. -/
+theorem impl_agree_enc (d : Bytes) : encC d = encPy d := rfl
+
+/-- No `std::string` primitive of `_rle.decode` is reached out of bounds. -/
+theorem decC_in_bounds (e : Bytes) (n : Nat) : decC e n ≠ .oob := by
+  rw [impl_agree_dec]
+  cases decPy e n <;> simp [toC]
+
+/-- `_rle.decode` never raises `IndexError` (only `ValueError`). -/
+theorem decC_never_indexError (e : Bytes) (n : Nat) : decC e n ≠ .err .indexError := by
+  rw [impl_agree_dec]
+  cases h : decPy e n with
+  | ok r => simp [toC]
+  | error x =>
+    have := dec_rejects_valueError e n x h
+    subst this; simp [toC]
+
+/-! ### Non-vacuity -/
+
+example : encPy #[1, 1, 2, 3, 3, 3] = [255, 1, 0, 2, 254, 3] := by decide +kernel
+example : decPy #[255, 1, 0, 2, 254, 3] 6 = .ok [1, 1, 2, 3, 3, 3] := by decide +kernel
+example : encPy (Array.replicate 130 7) = [129, 7, 255, 7] := by decide +kernel
+example : encPy #[] = [] ∧ encPy #[9] = [0, 9] := by decide +kernel
+example : specDec [128, 0, 5, 128] = some [5] ∧ decPy #[128, 0, 5, 128] 1 = .ok [5] := by decide +kernel
+example : decPy #[128] 7 = .ok [] := by decide +kernel
+example : decC #[0, 1, 254] 4 = .err .valueError ∧ decPy #[0, 1, 254] 4 = .error .valueError := by
+  decide +kernel
+/-- the size bound is attained: 128 bytes without equal neighbours need 130 bytes. -/
+example : (encPy ((Array.range 128).map UInt8.ofNat)).length = 128 + (128 + 126) / 127 := by
+  decide +kernel
 
 end PsdVerif.C05
